@@ -21,10 +21,11 @@ ASSUMPTIONS = [
     "a PDU that odxtools refuses to decode is outside the statement (counted, not reported)",
     "canonical = built by the reference encoder: reserved/padding bits zero, legal BCD digits, no negative zero, "
     "minimal terminators, length keys as produced by the reference",
-    "the compu-method clause of the statement (i2p then p2i is the identity for injective methods) is checked on "
-    "the exhaustive domains of C07's generator in check C07 (clause 'roundtrip')",
+    "compu-method clause: checked at PDU level through a DATA-OBJECT-PROP on every internal value of C07's generated "
+    "methods with integer internal type <= 12 bits, for values where the exact reference's inverse of the decoded "
+    "physical value is exactly the original (injective per the statement); also at method level by C07 'roundtrip'",
 ]
-MUST_HIT = ["leaf-sweep", "compu:LINEAR", "compu:TEXTTABLE", "struct", "sfield", "dlfield", "mux", "dct:minmax",
+MUST_HIT = ["compu-clause", "leaf-sweep", "compu:LINEAR", "compu:TEXTTABLE", "struct", "sfield", "dlfield", "mux", "dct:minmax",
             "dct:leading", "dct:paramlen", "service-path", "negative", "BYTE-SIZE"]
 NT = {"compu:LINEAR", "compu:LINEAR-float", "compu:TEXTTABLE", "struct", "sfield", "dlfield", "eopf", "mux", "table"}
 
@@ -144,18 +145,111 @@ def eval_case(case, res: core.ShardResult | None = None, sweep_bits: int = 8) ->
     return []
 
 
+# ---------------------------------------------------------------------------
+# compu-method clause: i2p then p2i is the identity on valid internal values of injective methods,
+# observed at PDU level through a DATA-OBJECT-PROP (generator and exact reference of C07)
+# ---------------------------------------------------------------------------
+def eval_compu(case, res: core.ShardResult | None = None) -> list:
+    from odxtools.decodestate import DecodeState
+    from odxtools.encodestate import EncodeState
+    from vlib import refcompu
+    from vlib.checks import c07
+    ir = case["cm"]
+    if ir["it"] not in refcompu.INT_TYPES:
+        return []
+    bits = int(ir.get("bits", 8))
+    if bits > 12:
+        return []
+    rc = refcompu.RefCompu(ir)
+    try:
+        dop, cm = c07.build_xml(ir)
+    except Exception as e:
+        raise core.Inconclusive(f"compu description rejected by the loader: {type(e).__name__}: {e}")
+    nbytes = (bits + 7) // 8
+    lo, hi = refcodec.int_range(ir["it"], None, bits)
+    only = case.get("iv")
+    fails = []
+    for v in ([only] if only is not None else range(lo, hi + 1)):
+        try:
+            if rc.valid_internal(v) is not True or not rc.roundtrip_exact(v):
+                continue
+        except Exception:
+            continue
+        pdu = refcodec.int_to_raw(ir["it"], None, bits, v).to_bytes(nbytes, "big")
+        with mh.quiet_warnings():
+            try:
+                ds = DecodeState(coded_message=pdu)
+                phys = dop.decode_from_pdu(ds)
+            except Exception:
+                if res is not None:
+                    res.rejected += 1
+                continue
+        # the reference's inverse of the observed physical value must be exactly {v}
+        try:
+            rb = rc.p2i(phys)
+            if not rb.admits(v) or (rb.integer and len(rb.ints()) != 1):
+                continue
+        except Exception:
+            continue
+        cls = {"compu-clause", "cat:" + ir["cat"] if "cat" in ir else "compu"}
+        c2 = {"stage": "compu", "cm": ir, "iv": v}
+        with mh.quiet_warnings():
+            try:
+                es = EncodeState()
+                dop.encode_into_pdu(phys, es)
+                back = bytes(es.coded_message)
+                if back != pdu:
+                    fails.append(core.Failure("compu-reencode-differs", f"{ir.get('cat')}: internal {v} -> {phys!r} -> "
+                                              f"{back.hex()} != {pdu.hex()}", core.plain(c2),
+                                              {"bucket": f"compu-reencode-differs:{ir.get('cat')}", "cat": ir.get("cat")}))
+            except Exception as e:
+                fails.append(core.Failure("compu-reencode-raises", f"{ir.get('cat')}: internal {v} decodes to {phys!r}, "
+                                          f"encoding that raised {type(e).__name__}: {e}", core.plain(c2),
+                                          {"bucket": f"compu-reencode-raises:{ir.get('cat')}", "cat": ir.get("cat"),
+                                           "exc": mh.exc_key(e)}))
+        if res is not None:
+            res.accepted += 1
+            res.note(c2, ir.get("cat") != "IDENTICAL" or v in (lo, hi), cls, sample=(len(res.samples) < 3))
+        if fails:
+            break
+    return fails
+
+
 def replay(case) -> list:
+    if case.get("stage") == "compu":
+        return eval_compu(case)
     return eval_case(case)
 
 
 def shards(tier):
-    return [("hyp", i) for i in range(16)]
+    return [("hyp", i) for i in range(12)] + [("compu", c) for c in
+                                              ("LINEAR", "SCALE-LINEAR", "TAB-INTP", "TEXTTABLE", "RAT-FUNC", "SCALE-RAT-FUNC")]
 
 
 def run_shard(spec, seed, tier):
     res = core.ShardResult()
     kf = known.load(PROPERTY)
     sweep = 8 if tier == "quick" else 12
+    if spec[0] == "compu":
+        from vlib.checks import c07
+        strat = c07.strategies()[spec[1]]
+
+        def cbody(case):
+            out = []
+            for f in eval_compu(case, res):
+                k = known.match(kf, f)
+                if k is not None:
+                    res.known_hits[k["id"]] += 1
+                else:
+                    out.append(f)
+            return out
+        n = 150 if tier == "quick" else 1500
+        found = core.hyp_search(strat, cbody, seed, n, shrink_budget_s=30)
+        if found:
+            res.failures.extend(found)
+        res.stages["compu"] = n
+        res.exhaustive_subspaces.append("per compu method with an integer internal type of <= 12 bits: every internal value")
+        return res
 
     def body(case):
         out = []
@@ -166,7 +260,7 @@ def run_shard(spec, seed, tier):
             else:
                 out.append(f)
         return out
-    n = 200 if tier == "quick" else 2000
+    n = 400 if tier == "quick" else 2500
     # multiplexer cases are selected by name: a key inside a case's range other than its lower limit is not
     # recoverable from the decoded value, i.e. not canonical in the sense of the statement
     found = core.hyp_search(gen.message_case(opts={"mux_by_name_only": True}), body, seed, n, shrink_budget_s=30)
